@@ -146,6 +146,33 @@ CHECKS["C06"] = dict(
          "client, new one opened, a later probe delivered.",
     technique="explicit-state exhaustion of the CRC automaton + exhaustive fault enumeration on the real receive path")
 
+CHECKS["C13"] = dict(
+    level="model_checking", design="DESIGN.md §6 C13",
+    text="Three streams per generation (1-3 frames, incl. an empty payload and a zero-record status) are delivered to the real "
+         "receive path under every segmentation with <= 2 cuts (quick; <= 3 thorough) at every byte position, with and without a "
+         "loop turn between segments, plus byte-by-byte delivery; the delivered (header, message) sequence must equal the "
+         "unsegmented run and the reference parse, on a single connection.",
+    technique="exhaustive enumeration of segmentations (cut positions x turn placement) on the real stream reader loop")
+CHECKS["C17"] = dict(
+    level="exploration", design="DESIGN.md §6 C17",
+    text="Through the real receive path: every type byte x 5 payload lengths, extended sub-ids (all 65536 thorough; six 128-wide "
+         "windows quick), every 0xC0 sub-type x 8 sub-header shapes, AT5 strides size..size+8, and for 16 frame kinds every byte "
+         "position set to every value with the CRC recomputed, every truncation point followed by EOF or by an intact frame, and "
+         "pairs of corrupted copies. Unknown kinds must arrive as unsupported messages with the payload unchanged and no reset; "
+         "frames with a defined vendor reading must be delivered as exactly that reading or not at all; anything else must be "
+         "survived (no unhandled exception; an intact frame is delivered after at most one re-connection).",
+    technique="exhaustive enumeration of input bytes on the real receive path against a spec-derived reference decoder")
+CHECKS["C18"] = dict(
+    level="model_checking", design="DESIGN.md §6 C18",
+    text="Real AirTouchDiscoverer.search() for both generations and pyairtouch.discover() on the virtual loop with a simulated "
+         "datagram endpoint: every datagram of a token grammar (0..5 comma separated fields over 8 tokens incl. invalid UTF-8; "
+         "6 thorough), and every placement of 2 (3 thorough) datagrams from a pool (valid, second console, duplicate, request "
+         "echo, wrong arity, other generation) at 12 corner instants around the three request times, in both tie orders, "
+         "broadcast and unicast. Oracle: documented request bytes and address, requests at 0/0.5/1.0 s only and none after an "
+         "interval with a valid answer, return by 1.5 s, result = reference-parsed valid datagrams without duplicates, clients with "
+         "the right model/port, endpoint closed.",
+    technique="exhaustive enumeration of datagram contents and arrival schedules on the real search loop")
+
 NOT_YET = {}
 
 
